@@ -270,7 +270,11 @@ Theorem C02_gen_rule_list :
   Gen.Rules.specified_rules_linked = Gen.Rules.specified_rules /\
   Tables.RuleTable.model_rule_indices = Tables.RuleTable.upto 24 /\
   Tables.RuleTable.str_nodup Gen.Rules.specified_rules = true.
-Proof. repeat split; vm_compute; reflexivity. Qed.
+Proof.
+  repeat split;
+  first [ vm_compute; reflexivity
+        | fail 1 "generated-table obligation C02_gen_rule_list no longer holds against the regenerated table: SpecifiedRules of rules.go (Gen/Rules.v) is not the rule list of the validation model (Tables/RuleTable.v)" ].
+Qed.
 Print Assumptions C02_gen_rule_list.
 
 (* ... and the model has no rule beyond the table: every other index reports nothing. *)
@@ -287,5 +291,8 @@ Print Assumptions C02_rule_indices_exhaustive.
    far as the model distinguishes them. *)
 Theorem C02_gen_specified_directives :
   Tables.DirectiveRules.gen_ddefs = Some Validate.Rules.specified_directives.
-Proof. vm_compute. reflexivity. Qed.
+Proof.
+  first [ vm_compute; reflexivity
+        | fail 1 "generated-table obligation C02_gen_specified_directives no longer holds against the regenerated table: graphql.SpecifiedDirectives (Gen/Directives.v) are not the directive definitions of Validate/Rules.v" ].
+Qed.
 Print Assumptions C02_gen_specified_directives.
